@@ -2,8 +2,10 @@ import Cpppo.Model.Wire
 import Cpppo.Model.Session
 import Cpppo.Driver.Logix
 /-!
-driver: `sess <fixed 0|1> <route> <maxBytes> <tags> <rand> <frames>`
+driver: `sess <fixed 0|1> <route> <routes> <maxBytes> <tags> <rand> <sessions>`
   route  = `*` (UCMM.route_path None) | `-` (falsy) | `port:link,…`
+  routes = routing table keys `port:link,…` ("-" = none)
+  sessions = connections joined by '!', each a list of frames
   tags   = as for `lgx`
   rand   = the values `random.randint` will deliver, joined by ',' ("-" = none)
   frames = frames joined by ';' ("-" = none); frame = `<session>~<status>~<context hex>~<options>~<body>`
@@ -75,22 +77,31 @@ def showRun (r : Run) : String :=
   let sess := match r.srv.session with | some h => toString h | none => "-"
   s!"{reps} n={r.consumed} e={showEnd r.end} s={sess} d={dump r.srv.dev}"
 
+/-- sessions one after the other, each one frame per batch -/
+def serveSessionsSingly (cfg : Cfg) : Srv → List (List Frame) → List Run
+  | _, [] => []
+  | s, fs :: rest => let r := serveBatches cfg s (fs.map fun f => [f]); r :: serveSessionsSingly cfg r.srv rest
+
+def showRuns (rs : List Run) : String := " // ".intercalate (rs.map showRun)
+
 def handle : List String → Option String
-  | ["sess", fixed, route, maxb, tags, rand, frames] => do
+  | ["sess", fixed, route, routes, maxb, tags, rand, sessions] => do
     let fixed ← parseBool fixed
-    let cfg : Cfg := { route := ← parseRouteCfg route }
+    let cfg : Cfg := { route := ← parseRouteCfg route, routes := ← parseRoute routes }
     let maxb ← maxb.toNat?
     let specs ← (splitNonEmpty tags ',').mapM parseTag
     let d0 : Dev := { objs := [{ cls := router.1, ins := router.2, attrs := [] }], symbols := [], maxBytes := maxb }
     let d := specs.foldl addTag d0
     let rand ← (splitNonEmpty rand ',').mapM (·.toNat?)
-    let fs ← (splitNonEmpty frames ';').mapM parseFrame
+    let ss ← (splitOn sessions '!').mapM fun x => (splitNonEmpty x ';').mapM parseFrame
     let s : Srv := { dev := d, rand := rand }
-    if !fs.all (·.inScope d) then pure "out-of-scope" else
+    if !ss.all (·.all (·.inScope cfg d)) then pure "out-of-scope" else
     if fixed then
-      pure (showRun (serve cfg s fs) ++ " || " ++ showRun (serveBatches cfg s (fs.map fun f => [f])) ++ " || same")
+      pure (showRuns (serveSessions cfg s ss) ++ " || " ++ showRuns (serveSessionsSingly cfg s ss) ++ " || same")
     else
-      pure (showRun (serveOld cfg s fs) ++ " || " ++ showRun (serveOld cfg s fs) ++ " || same")
+      match ss with
+      | [fs] => pure (showRun (serveOld cfg s fs) ++ " || " ++ showRun (serveOld cfg s fs) ++ " || same")
+      | _ => none
   | _ => none
 
 end Cpppo.Driver.Session
